@@ -724,6 +724,14 @@ class Analysis:
             return T.mk('sym', 'void')
         if (f.startswith('tmcg_mpz_shash') or f in ('tmcg_h', 'tmcg_g')) and aex:
             args = tuple(self.ev_arg(a, st, nid) for a in aex)
+            va = e.get('va')
+            if va is not None and va >= 1 and len(args) >= va and T.is_int(args[va - 1]):
+                # variadic hash: only the first <count> variadic arguments are read
+                cnt = T.node(args[va - 1])[1]
+                nvar = len(args) - va
+                self.event(nid, ('hashcount', f, cnt, nvar, line))
+                if 0 <= cnt < nvar:
+                    args = args[:va + cnt]
             self.event(nid, ('call', f, args, line, fid))
             self.event(nid, ('hash', f, args, line, e.get('va')))
             l = self.loc(aex[0], st)
